@@ -327,6 +327,73 @@ func c16Laws(c *Case) {
 	}
 }
 
+// pluck over several records in one run, each result modified afterwards: every result is a new object whose
+// absent keys are null, whatever was stored into earlier results
+func c16PluckHistory(c *Case) {
+	rng := c.Rng
+	keys := []string{"a", "b", "length", "x", "é", "nick"}
+	var req []string
+	for i := 1 + rng.IntN(4); i > 0; i-- {
+		req = append(req, append(keys, "nope", "pluck")[rng.IntN(len(keys)+2)])
+	}
+	var recs []map[string]any
+	var in strings.Builder
+	for n := 2 + rng.IntN(4); n > 0; n-- {
+		o := map[string]any{}
+		for i := rng.IntN(5); i > 0; i-- {
+			o[keys[rng.IntN(len(keys))]] = float64(rng.IntN(9))
+		}
+		recs = append(recs, o)
+		in.Write(jsonBytes(o))
+		in.WriteByte('\n')
+	}
+	var args, stores strings.Builder
+	for i, r := range req {
+		if i > 0 {
+			args.WriteString(", ")
+		}
+		args.WriteString("'" + r + "'")
+		switch rng.IntN(3) {
+		case 0:
+			fmt.Fprintf(&stores, "r['%s'] = 'filled'; ", r)
+		case 1:
+			fmt.Fprintf(&stores, "r['%s']++; ", r)
+		default:
+			fmt.Fprintf(&stores, "r['%s'] += 5; ", r)
+		}
+	}
+	prog := "{ r = $.pluck(" + args.String() + "); print '@@'; print json([r, $]); " + stores.String() + "last = r } END { print '@@'; print json(last) }"
+	lib := RunLib(prog, []InFile{{Name: "in", Data: []byte(in.String())}}, nil, RunOpts{Budget: 100000})
+	c.Count("law_runs:pluck-history")
+	c.NonTrivial("pluckhist:" + prog + in.String())
+	parts := strings.Split(string(lib.Stdout), "@@\n")
+	if lib.Class != "ok" || len(parts) != len(recs)+2 {
+		c.Violation(fmt.Sprintf("pluck history: %s (%s), %d output sections for %d records | %s", lib.Class, lib.Msg, len(parts)-1, len(recs), prog), nil, map[string]any{"program": prog, "input": in.String()})
+		return
+	}
+	for i, o := range recs {
+		v, _, err := decodeOne([]byte(parts[i+1]))
+		a, ok := v.([]any)
+		if err != nil || !ok || len(a) != 2 {
+			c.Violation("pluck history: unreadable output section "+clip(parts[i+1], 80), nil, map[string]any{"program": prog, "input": in.String()})
+			return
+		}
+		want := map[string]any{}
+		for _, r := range req {
+			if v, ok := o[r]; ok {
+				want[r] = v
+			} else {
+				want[r] = nil
+			}
+		}
+		if !jsonEqual(any(want), a[0]) || !jsonEqual(any(o), a[1]) {
+			c.Violation(fmt.Sprintf("pluck history: record %d %s plucked for %v gave %s (want %s; record afterwards %s) after earlier results were modified | %s", i, jsonBytes(o), req, jsonBytes(a[0]), jsonBytes(want), jsonBytes(a[1]), prog), nil, map[string]any{"program": prog, "input": in.String()})
+			return
+		}
+	}
+	c.Held()
+}
+
 func c16Cases(tier string) int {
 	n := len(c16Methods) + 3
 	if tier == "thorough" {
@@ -351,13 +418,14 @@ func c16Run(c *Case) {
 		}
 	default:
 		c16Laws(c)
+		c16PluckHistory(c)
 	}
 }
 
 func init() {
 	register(&Prop{
 		ID: "C16", Level: "exploration",
-		Rule:          "enumerated: 13 methods + 3 builtins x 32 receiver values (all 10 kinds) x 9 argument lists (0-3 arguments of several kinds): result vs reference, and never a panic; sampled: receivers/arguments supplied through the input document so every UTF-8 string is reachable (multi-byte, separators at the ends / repeated / overlapping / empty / longer than the subject; doubles at and around halves, beyond 2^53, tiny; objects and key lists with present/absent/repeated keys and the method names length/pluck; numeric and non-numeric spellings for num) compared with reference functions; algebraic laws checked on the implementation's output alone (split pieces/join, floor<=x<=ceil, round half away, case idempotence, byte length, pluck key set and immutability, num(str(x))==x). Non-trivial = non-ASCII / separator at an end or empty / non-integral number / absent key; distinct by call+document.",
+		Rule:          "enumerated: 13 methods + 3 builtins x 32 receiver values (all 10 kinds) x 9 argument lists (0-3 arguments of several kinds): result vs reference, and never a panic; sampled: receivers/arguments supplied through the input document so every UTF-8 string is reachable (multi-byte, separators at the ends / repeated / overlapping / empty / longer than the subject; doubles at and around halves, beyond 2^53, tiny; objects and key lists with present/absent/repeated keys and the method names length/pluck; numeric and non-numeric spellings for num) compared with reference functions; algebraic laws checked on the implementation's output alone (split pieces/join, floor<=x<=ceil, round half away, case idempotence, byte length, pluck key set and immutability, also over 2-5 records in one run whose results are each modified after the call, num(str(x))==x). Non-trivial = non-ASCII / separator at an end or empty / non-integral number / absent key; distinct by call+document.",
 		NumCases:      c16Cases,
 		Run:           c16Run,
 		MinConclusive: func(tier string) int { return 5000 },
